@@ -1,6 +1,6 @@
 SPECIFICATION Spec
 CONSTANT FileIds = {"root.jst", "a.jst", "b.jst"}
-CONSTANT MaxRoot = 4
+CONSTANT MaxRoot = 3
 CONSTANT Variant = "contexts"
 CONSTANT MaxOther = 3
 INVARIANT StackBounded
